@@ -169,8 +169,15 @@ func messageBodyLength(meta []byte) (bodyLen int64, blPos int, headerType byte, 
 	}
 	field := func(id int) (int, bool) { // offset of the field inside meta, 0 = absent
 		slot := 4 + 2*id
-		if slot+2 > vtSize {
+		// The flatbuffers runtime treats a slot as present when it STARTS
+		// inside the declared vtable size (slot < vtSize), even if its second
+		// byte lies beyond it; mirror that, or a one-byte change of the vtable
+		// size makes the walker and the reader disagree about bodyLength.
+		if slot >= vtSize {
 			return 0, true
+		}
+		if vt+slot+2 > len(meta) {
+			return 0, false
 		}
 		off := int(binary.LittleEndian.Uint16(meta[vt+slot:]))
 		if off == 0 {
